@@ -38,7 +38,7 @@ META = {
     "level_note": "Trusted: the instrumentation that builds the registries; the RefTrace model (union / sum / pointwise min).",
 }
 PLAN = {
-    "quick": {"shards": 12, "examples": 2400},
+    "quick": {"shards": 12, "examples": 2000},
     "thorough": {"shards": 16, "examples": 150000, "timeout": 3000},
 }
 
